@@ -21,9 +21,12 @@
    * `usize`: sizes are N.  `self.size -= last.len()` cannot underflow when the size field is
      the sum of the entry sizes (invariant [wf] in Proofs/HpackDecProofs.v); `consolidate`'s
      panic!() is the distinct outcome [VPanic] and is proved unreachable under [wf].
-   * [quirk] is a ghost component of results: it records *why* an error arose where h2's error
-     classes conflate two causes.  It influences nothing and is ignored by the correspondence
-     check; the chunking theorem uses it to state exactly when split feeding differs. *)
+   * [quirk] is a ghost component of results: it records *why* InvalidMaxDynamicSize arose
+     (h2's error class conflates "size update larger than the ceiling" with "size update after
+     a header field").  It influences nothing and is ignored by the correspondence check; the
+     chunking theorem uses it to state exactly when split feeding differs (known finding
+     KF-C11-1).  (Until h2 commit a9c11d7 an empty literal name answered NeedMore after its
+     strings had been consumed, a second such case; it is a plain InvalidUtf8 now.) *)
 From Coq Require Import String.
 From H2V Require Import Base.Tac Base.Bytes Gen.StaticTable Model.HttpTokens Model.HpackInt.
 Local Open Scope N_scope.
@@ -93,7 +96,7 @@ Definition guard (ok : bool) (e : dec_err) (f : field) : hres := if ok then HOk 
 (* Header::new(name, value) *)
 Definition header_new (name value : list N) : hres :=
   match name with
-  | [] => HErr (NeedMore UnexpectedEndOfStream)                      (* name.is_empty() *)
+  | [] => HErr InvalidUtf8                                           (* name.is_empty() *)
   | c :: rest =>
     if c =? 58 then                                                   (* name[0] == b':' *)
       if list_N_eqb rest (bstr "authority") then guard (utf8_ok value) InvalidUtf8 (name, value)
@@ -250,7 +253,7 @@ Definition try_decode_string (hd : list N -> option (list N)) (bs : list N)
     end
   end.
 
-Inductive quirk := QNone | QMisplacedUpdate | QEmptyName.
+Inductive quirk := QNone | QMisplacedUpdate.
 
 (* result of one representation that yields a header: on error, [lft] is the content of the
    underlying BytesMut (what a later call of decode would see first) *)
@@ -279,7 +282,7 @@ Definition decode_literal (hd : list N -> option (list N)) (t : table) (bs : lis
           | HOk f => LOk f rest2
           | HErr e =>
             let lft := if value_huff then (if name_huff then bs else rest1) else rest2 in
-            LErr e lft (match name with [] => QEmptyName | _ => QNone end)
+            LErr e lft QNone
           end
         end
       end
